@@ -29,9 +29,16 @@ package admin
 // applied by one goroutine, in order) and reads the rows back over its own connection; both must
 // agree, and every fresh validation of X — repeated, on several paths — must give: revoked ⇒
 // rejected, not revoked ⇒ accepted. Verdicts obtained DURING the overlap are not judged (either
-// order is a valid linearisation). The router path is used by concurrent validators only in rounds
-// without a Blacklist (the router's TokenCache write-back is outside the revocation list's lock;
-// that interleaving is the documented out-of-scope item of this check).
+// order is a valid linearisation).
+//
+//   * "logpark" rounds (router path vs. Blacklist): the router writes an accepted token into its
+//     own TokenCache AFTER tokens.Unwrap has consulted the revocation list; Blacklist purges
+//     TokenCache. The only thing between the lookup and the write-back is the AUTH log line
+//     "auth.decrypted", so the harness switches the AUTH logger on and lets the log go to a pipe
+//     that is full (a slow log consumer): the router validation parks in that write (observed from
+//     runtime.Stack), Blacklist(X) runs to completion, then the pipe is drained. Class
+//     conc-router-cache-after-purge = router reader ∧ Blacklist changer ∧ the tokens-level reads
+//     are right ∧ the router accepts at the quiescent point.
 
 import (
 	"context"
@@ -50,6 +57,7 @@ import (
 	"github.com/google/uuid"
 	"github.com/tucats/ego/internal/caches"
 	"github.com/tucats/ego/internal/cli/settings"
+	"github.com/tucats/ego/internal/cli/ui"
 	"github.com/tucats/ego/internal/defs"
 	"github.com/tucats/ego/internal/errors"
 	"github.com/tucats/ego/internal/language/data"
@@ -82,6 +90,10 @@ type c21Conc struct {
 	round  int
 	log    []string // protocol lines of the current round
 	logMu  sync.Mutex
+	argon  time.Duration // measured cost of one tokens.Unwrap (one Argon2 derivation)
+	// facts about the current round (the class of a failure is a predicate on these)
+	routerReader bool // a router-path validation ran concurrently
+	blChanger    bool // a Blacklist ran concurrently
 }
 
 func (c *c21Conc) line(format string, a ...any) {
@@ -246,13 +258,27 @@ func (c *c21Conc) quiescent(tk *c21CTok, paths []string) {
 
 		// how persistent is it? (a stale cache entry is refreshed by every Find)
 		again := 0
+		rp := "ib"
+		if p == "r" {
+			rp = "r"
+		}
+
 		for k := 0; k < 3; k++ {
-			if a, _ := c.check("ib", tk); a == acc {
+			if a, _ := c.check(rp, tk); a == acc {
 				again++
 			}
 		}
 
-		if tk.revoked {
+		if tk.revoked && p == "r" && c.routerReader && c.blChanger {
+			// the tokens-level reads before this one were right: the stale answer is the router's own cache
+			_, inCache := caches.Find(caches.TokenCache, tk.text)
+			c.failure("conc-router-cache-after-purge",
+				fmt.Sprintf("quiescent point: every change has returned, the id IS on the revocation list (table row present, "+
+					"IsBlacklisted=true), yet the router authenticates the token (read %d; %d of 3 further router validations "+
+					"agree; token text in TokenCache: %v): a router validation that overlapped the Blacklist wrote the token "+
+					"into TokenCache after the Blacklist had purged it", i+1, again, inCache),
+				detail, "rejected")
+		} else if tk.revoked {
 			c.failure("conc-accept-revoked",
 				fmt.Sprintf("quiescent point: every change has returned, the id IS on the revocation list (table row present), "+
 					"yet the token is accepted (read %d on path %s; %d of 3 further lookups agree with the stale answer)", i+1, p, again),
@@ -330,6 +356,7 @@ func (c *c21Conc) begin(kind string) {
 	c.log = []string{fmt.Sprintf("conc %s round %d", kind, c.round)}
 	c.logMu.Unlock()
 	c.stats.Inc("conc_rounds_" + kind)
+	c.routerReader, c.blChanger = false, false
 }
 
 // parked: validations of revoked tk wait at their audit update behind the harness's write lock
@@ -356,6 +383,7 @@ func (c *c21Conc) parked(tk *c21CTok, readers []string, changes []string) {
 	var wg sync.WaitGroup
 
 	for _, p := range readers {
+		c.routerReader = c.routerReader || p == "r"
 		wg.Add(1)
 
 		go func() {
@@ -433,8 +461,165 @@ func containsFlush(ops []string) bool {
 	return false
 }
 
+// c21FullPipe returns a pipe whose buffer is full: the next write to w blocks until r is read.
+func c21FullPipe(t *testing.T) (r, w *os.File) {
+	r, w, err := os.Pipe()
+	if err != nil {
+		t.Fatalf("pipe: %v", err)
+	}
+
+	filler := []byte(strings.Repeat(" ", 1023) + "\n")
+
+	for {
+		_ = w.SetWriteDeadline(time.Now().Add(30 * time.Millisecond))
+
+		if _, err := w.Write(filler); err != nil {
+			break
+		}
+	}
+
+	_ = w.SetWriteDeadline(time.Time{})
+
+	return r, w
+}
+
+// logpark: a router validation of un-revoked tk is parked at the log line between its revocation
+// lookup and its TokenCache write-back while `change` (a Blacklist) runs to completion.
+func (c *c21Conc) logpark(tk *c21CTok, change string) {
+	c.begin("logpark")
+
+	if tk.revoked {
+		tk.revoked = c.apply("del", tk, true)
+		c.line("del %d", tk.n)
+	}
+
+	caches.Purge(caches.TokenCache)
+	c.line("purge tokens")
+
+	pr, pw := c21FullPipe(c.t)
+	stdout := os.Stdout
+	os.Stdout = pw
+	was := ui.IsActive(ui.AuthLogger)
+	ui.Active(ui.AuthLogger, true)
+	c.line("AUTH log on, log consumer stalled")
+
+	c.routerReader, c.blChanger = true, true
+
+	var wg sync.WaitGroup
+
+	wg.Add(1)
+
+	go func() {
+		defer wg.Done()
+		c.check("r", tk)
+	}()
+
+	c.line("go val r %d", tk.n)
+
+	if c21WaitFor(20*time.Second, func() bool { return c21Goroutines("tokens.Unwrap(", "ui.WriteLogString") > 0 }) {
+		c.stats.Inc("conc_logpark_observed")
+		c.line("(validation parked at its log line, after the revocation lookup)")
+	}
+
+	// the revocation runs to completion while the validation is parked (should it log too, it
+	// parks as well: then it is only started here and finishes once the consumer resumes)
+	done := make(chan bool, 1)
+	returned := false
+
+	go func() { done <- c.apply(change, tk, false) }()
+
+	select {
+	case tk.revoked = <-done:
+		returned = true
+
+		c.line("%s %d (returned)", change, tk.n)
+	case <-time.After(5 * time.Second):
+		c.line("go %s %d", change, tk.n)
+	}
+
+	drained := make(chan struct{})
+
+	go func() {
+		buf := make([]byte, 65536)
+		for {
+			if _, err := pr.Read(buf); err != nil {
+				close(drained)
+
+				return
+			}
+		}
+	}()
+
+	c.line("log consumer resumes")
+	c21Join(c.t, &wg, "logpark round")
+
+	if !returned {
+		select {
+		case tk.revoked = <-done:
+		case <-time.After(60 * time.Second):
+			c.t.Fatalf("logpark: the revocation did not return")
+		}
+	}
+
+	c.line("join")
+	ui.Active(ui.AuthLogger, was)
+	os.Stdout = stdout
+	pw.Close()
+	<-drained
+	pr.Close()
+
+	c.quiescent(tk, []string{"ib", "id", "r", "r"})
+}
+
+// measure: how often does the free-running form (no stalled log) hit? One round = un-revoked X,
+// TokenCache purged, k router validations started, Blacklist(X) after a random share of the
+// measured validation time; hit = the router accepts at the quiescent point.
+func (c *c21Conc) measure(r interface{ Intn(int) int }, d time.Duration, withLog bool) {
+	if withLog { // AUTH log on, written to /dev/null: the ordinary cost of a log line widens the window
+		if f, err := os.OpenFile(os.DevNull, os.O_WRONLY, 0); err == nil {
+			stdout := os.Stdout
+			os.Stdout = f
+			was := ui.IsActive(ui.AuthLogger)
+			ui.Active(ui.AuthLogger, true)
+
+			defer func() { ui.Active(ui.AuthLogger, was); os.Stdout = stdout; f.Close() }()
+		}
+	}
+
+	rounds, hits := 0, 0
+	tk := c.toks[0]
+
+	for t0 := time.Now(); time.Since(t0) < d; rounds++ {
+		if tk.revoked {
+			tk.revoked = c.apply("del", tk, true)
+		}
+
+		caches.Purge(caches.TokenCache)
+		caches.Purge(caches.BlacklistCache)
+
+		var wg sync.WaitGroup
+
+		for k := 0; k < 3; k++ {
+			wg.Add(1)
+
+			go func() { defer wg.Done(); c.check("r", tk) }()
+		}
+
+		time.Sleep(c.argon * time.Duration(60+r.Intn(120)) / 100)
+		tk.revoked = c.apply("bl", tk, false)
+		wg.Wait()
+
+		if acc, _ := c.check("r", tk); acc {
+			hits++
+		}
+	}
+
+	c.t.Logf("MEASURE free-running router-vs-Blacklist (AUTH log on: %v): %d stale accepts in %d rounds (%v, Argon2 %v)",
+		withLog, hits, rounds, d, c.argon.Round(time.Millisecond))
+}
+
 // free: one cache-missing validation and one change of the same id, released together.
-func (c *c21Conc) free(tk *c21CTok, path, change string, spin int) {
+func (c *c21Conc) free(tk *c21CTok, path, change string, spin int, delay time.Duration) {
 	c.begin("free")
 
 	// opposite state first, nothing cached
@@ -454,6 +639,14 @@ func (c *c21Conc) free(tk *c21CTok, path, change string, spin int) {
 	c.line("(%d revoked: %v)", tk.n, tk.revoked)
 	caches.Purge(caches.BlacklistCache)
 	c.line("purgebl")
+
+	if path == "r" {
+		caches.Purge(caches.TokenCache)
+		c.line("purge tokens")
+	}
+
+	c.routerReader = path == "r"
+	c.blChanger = strings.HasPrefix(change, "bl")
 
 	var wg sync.WaitGroup
 
@@ -476,20 +669,28 @@ func (c *c21Conc) free(tk *c21CTok, path, change string, spin int) {
 			runtime.Gosched()
 		}
 
+		time.Sleep(delay)
+
 		after = c.apply(change, tk, after)
 	}()
 
-	c.line("go val %s %d || go %s %d (after %d yields)", path, tk.n, change, tk.n, spin)
+	c.line("go val %s %d || go %s %d (after %d yields, %v)", path, tk.n, change, tk.n, spin, delay.Round(time.Millisecond))
 	close(start)
 	c21Join(c.t, &wg, "free round")
 	c.line("join")
 
 	tk.revoked = after
-	c.quiescent(tk, []string{"ib", "id", "ib"})
+
+	paths := []string{"ib", "id", "ib"}
+	if path == "r" {
+		paths = append(paths, "r")
+	}
+
+	c.quiescent(tk, paths)
 }
 
 // storm: validators looping over all tokens, a purger, one changer per token.
-func (c *c21Conc) storm(r interface{ Intn(int) int }, withRouter bool) {
+func (c *c21Conc) storm(r interface{ Intn(int) int }, onlyUnrevoke bool) {
 	c.begin("storm")
 
 	var (
@@ -499,7 +700,7 @@ func (c *c21Conc) storm(r interface{ Intn(int) int }, withRouter bool) {
 	)
 
 	ops := []string{"bl", "del", "bl", "del", "blh", "delh", "purgebl"}
-	if withRouter { // no Blacklist in this round: see the header comment
+	if onlyUnrevoke {
 		ops = []string{"del", "delh", "purgebl", "del"}
 
 		for _, tk := range c.toks {
@@ -519,6 +720,7 @@ func (c *c21Conc) storm(r interface{ Intn(int) int }, withRouter bool) {
 		}
 
 		c.line("go %s %d", strings.Join(list, ","), tk.n)
+		c.blChanger = c.blChanger || strings.Contains(","+strings.Join(list, ","), ",bl")
 		cwg.Add(1)
 
 		go func() {
@@ -531,10 +733,8 @@ func (c *c21Conc) storm(r interface{ Intn(int) int }, withRouter bool) {
 		}()
 	}
 
-	paths := []string{"ib", "id", "ib", "id"}
-	if withRouter {
-		paths = []string{"ib", "id", "ib", "r"}
-	}
+	paths := []string{"ib", "id", "ib", "r"}
+	c.routerReader = true
 
 	for w, p := range paths {
 		wg.Add(1)
@@ -585,7 +785,7 @@ func (c *c21Conc) storm(r interface{ Intn(int) int }, withRouter bool) {
 
 	for i, tk := range c.toks {
 		tk.revoked = after[i]
-		c.quiescent(tk, []string{"ib", "id", "ib"})
+		c.quiescent(tk, []string{"ib", "id", "ib", "r"})
 	}
 }
 
@@ -658,7 +858,10 @@ func TestVerifC21Conc(t *testing.T) {
 			t.Fatalf("issue: %v", err)
 		}
 
+		ta := time.Now()
 		tok, err := tokens.Unwrap(text, 0)
+		c.argon = time.Since(ta)
+
 		if err != nil || tok == nil {
 			t.Fatalf("a fresh token does not unwrap: %v", err)
 		}
@@ -705,6 +908,21 @@ func TestVerifC21Conc(t *testing.T) {
 
 	phase("parked rounds")
 
+	if v := os.Getenv("VERIF_C21_MEASURE"); v != "" { // experiment, not part of the check
+		d, _ := time.ParseDuration(v)
+		c.measure(r, d, false)
+		c.measure(r, d, true)
+
+		return
+	}
+
+	// the router's write-back against a revocation, parked at the log line in between
+	for i := 0; i < c21N(2, 6); i++ {
+		c.logpark(c.toks[i%len(c.toks)], "bl") // (the REST handler writes AUTH log lines of its own: free rounds and storms use it)
+	}
+
+	phase("logpark rounds")
+
 	// free micro-rounds, bounded by count and by time
 	budget := time.Duration(c21N(2500, 20000)) * time.Millisecond
 	t0 := time.Now()
@@ -712,13 +930,19 @@ func TestVerifC21Conc(t *testing.T) {
 
 	for i := 0; i < c21N(1500, 20000) && time.Since(t0) < budget && c.nfail < 6; i++ {
 		change := []string{"bl", "del", "bl", "delh", "bl", "flush"}[r.Intn(6)]
-		c.free(c.toks[r.Intn(len(c.toks))], fp[r.Intn(2)], change, r.Intn(4))
+
+		c.free(c.toks[r.Intn(len(c.toks))], fp[r.Intn(2)], change, r.Intn(4), 0)
 
 		if containsFlush([]string{change}) {
 			for _, tk := range c.toks {
 				tk.revoked = false
 			}
 		}
+	}
+
+	// the same with a router-path validation (one Argon2 derivation each) and a revocation arriving about when it ends
+	for i := 0; i < c21N(8, 200) && c.nfail < 6; i++ {
+		c.free(c.toks[r.Intn(len(c.toks))], "r", []string{"bl", "blh"}[r.Intn(2)], 0, c.argon*time.Duration(50+r.Intn(100))/100)
 	}
 
 	phase("free rounds")
